@@ -89,9 +89,12 @@ impl Scenario for ConcSc {
         }
         let Some((inner, inner_class)) = inner_of(&plan.class) else { return };
         let tier = if plan.get("tier") == 1 { Tier::Thorough } else { Tier::Quick };
-        let inner_plan = inner.gen(&plan.property, inner_class, plan.seed, plan.get("index") as u64, tier);
+        // two sequential runs of the inner class (other seed, other index): two keys, often two schemes or groups, in one trace
         rec.trace = Some(vec![]);
-        inner.run(&inner_plan, env, rec);
+        for k in 0..2u64 {
+            let inner_plan = inner.gen(&plan.property, inner_class, plan.seed ^ (k * 0x9E37), plan.get("index") as u64 + 7 * k, tier);
+            inner.run(&inner_plan, env, rec);
+        }
         let trace: Vec<Traced> = rec.trace.take().unwrap_or_default().into_iter().filter(|t| t.lib == env.cur.name() && !(t.op == Op::PokTsVerify && t.tick != 0)).collect();
         if trace.len() < 2 {
             rec.probe("trace-too-short-for-a-session");
